@@ -154,6 +154,18 @@ claim("C06",
       "Trusted: python ast, table model, clang as parser for R5; CPython new-reference API list in the checker.",
       "DESIGN.md §4 C06")
 
+claim("C03",
+      "table/template analysis over ast + table models (PyArg_Parse unit widths vs C types, C-API argument kinds, "
+      "parse/build arity, error-path discipline after PyErr_*, tuple order, argument counter siblings)",
+      "Decides necessary conditions of call-equivalence that are visible in the tables and templates: every "
+      "PyArg_Parse unit stores exactly the size of its variable, tuple/dict C-API calls get the right wrapper "
+      "parameter, format strings and argument lists have equal arity, every error set in a template is followed by "
+      "leaving with the error value (no SystemError), the result is first in the returned tuple and the argument "
+      "counters add tuple and keyword sizes. Behaviour of the compiled extension is not executed. One known finding "
+      "(dispatcher arity counts non-Python arguments).",
+      "Trusted: python ast, table model, CPython format-unit table and LP64 sizes in the checker.",
+      "DESIGN.md §4 C03")
+
 PENDING = "check not built yet in this session (fail-closed: not claimed until its rules run clean)"
-for _p in ["C01","C02","C03","C18"]:
+for _p in ["C01","C02","C18"]:
     na(_p, PENDING)
